@@ -2,14 +2,14 @@
 LEVEL = 'model_checking'
 LIMITS = {'max_unsupported': 0, 'max_undecided_frac': 0.01}
 OUTSIDE = ['definitions (let / fn / unit / dimension / struct), decorators (the `@name("Foo bar")` echo defect named in the property text is a single concrete input and NOT found here), signatures, where-clauses, interpolated strings, temperature sugar',
-           'expression statements longer than the exhaustive bound that do not match one of the templates; operands other than the scalar variable x = 3 and the literal 2 (units with prefixes, function calls: x is not callable, so call syntax is rejected by the checker)',
+           'expression statements longer than the exhaustive bound that do not match one of the templates; operands other than the literal 2 and one identifier per case family (the scalar variable x = 3; the unit meter; the prefixed short name km; the variable y = 3 meter; the function f)',
            'strings longer than the bound; non-ASCII characters (they are copied through unchanged by both directions); strings with interpolations']
 ASSUMPTIONS = ['characters are symbolic over the 14-character alphabet  " \\ { } n r t 0 a space LF CR TAB NUL  — every character that escape_numbat_string or the parser\'s unescaping distinguishes, the letters used in escapes, and ordinary characters']
 
 ALPHA = [34, 92, 123, 125, 110, 114, 116, 48, 97, 32, 10, 13, 9, 0]
 
 def bounds(tier):
-    return {'expressions': 'every token sequence of 1..%d tokens over the 37-kind expression alphabet of C10 that the real parser and checker accept (first token fixed per case, the rest symbolic), plus the operator templates of C10 (x o x o x, - x o x o x, x o x o x !, ( x o x ) o x …) with the operator positions symbolic over the 23 operators' % (3 if tier == 'quick' else 4),
+    return {'expressions': 'five families (the Identifier token is the scalar x = 3, the unit meter, km, the variable y = 3 meter, or the function f): every token sequence of 1..%d tokens (other families: one token fewer) over the 37-kind expression alphabet of C10 that the real parser and checker accept (first token fixed per case, the rest symbolic), plus operator templates (x o x o x, - x o x o x, x o x o x !, ( x o x ) o x …) with the operator positions symbolic over the 23 operators' % (3 if tier == 'quick' else 4),
             'strings': 'every string of 0..%d characters over the 14-character alphabet' % (3 if tier == 'quick' else 5)}
 
 def exhaustive(tier): return False
@@ -28,18 +28,16 @@ def plan(tier, rnd, units):
     return [expr_job(tier), {'entry': 'h_c15_string', 'cases': cases, 'opts': {'mode': 'replay', 'max_paths': 1000000, 'instr_budget': 50_000_000},
              'expect_covers': ['c15-escaped', 'c15-read-back'], 'selftest_inputs': _inputs}]
 
+UNIT_PRELUDE = ('dimension Scalar = 1\ndimension Length\n@metric_prefixes\n@aliases(m: short)\nunit meter: Length\n'
+                'fn f(a: Scalar) -> Scalar = a + 1\nlet y = 3 meter\nlet x = 3\n')
+# (family id, prelude or None, identifier lexeme or None, what the Identifier token stands for)
+FAMILIES = [('x', None, None, 'the scalar variable x = 3'), ('meter', UNIT_PRELUDE, 'meter', 'the unit meter'), ('km', UNIT_PRELUDE, 'km', 'the prefixed short unit name km'),
+            ('y', UNIT_PRELUDE, 'y', 'the variable y = 3 meter'), ('f', UNIT_PRELUDE, 'f', 'the function f(a: Scalar) -> Scalar')]
+
 def expr_job(tier):
     from . import c10
     K = c10.K; x = str(c10.ID); n2 = str(c10.NUM)
-    n = 3 if tier == 'quick' else 4
     cases = []
-    for L in range(1, n + 1):
-        for first in range(K):
-            if L >= 4:
-                for second in range(K):
-                    cases.append({'id': 'e-len%d-first%d-%d' % (L, first, second), 'label': 'all accepted expressions of %d tokens starting with kinds %d %d' % (L, first, second), 'cfg': {0: ' '.join([str(first), str(second)] + ['s'] * (L - 2))}})
-                continue
-            cases.append({'id': 'e-len%d-first%d' % (L, first), 'label': 'all accepted expressions of %d tokens starting with kind %d' % (L, first), 'cfg': {0: ' '.join([str(first)] + ['s'] * (L - 1))}})
     LP, RP, MINUS, BANG, UEXP = str(c10.LP), str(c10.RP), str(c10.MINUS), str(c10.BANG), str(c10.UEXP)
     T = [[x, 'o', n2, 'o', x], [MINUS, x, 'o', n2, 'o', x], [x, 'o', MINUS, n2, 'o', x], [x, 'o', n2, 'o', x, BANG], [x, 'o', x, BANG, 'o', n2],
          [LP, x, 'o', n2, RP, 'o', x], [x, 'o', LP, n2, 'o', x, RP], [LP, x, 'o', n2, RP, BANG], [LP, x, 'o', n2, RP, UEXP], [MINUS, LP, x, 'o', n2, RP, 'o', x],
@@ -47,12 +45,44 @@ def expr_job(tier):
     if tier == 'thorough':
         T += [[x, 'o', n2, 'o', x, 'o', n2], [LP, x, 'o', n2, RP, 'o', LP, n2, 'o', x, RP], [LP, x, 'o', n2, 'o', x, RP, 'o', n2], [x, 'o', LP, n2, 'o', x, 'o', n2, RP]]
     OPK = [4, 5, 6, 7, 8, 9, 10, 11, 12, 13, 14, 15, 16, 17, 18, 19, 20, 21, 22, 23, 24, 25, 27]
-    for i, t in enumerate(T):
-        j = t.index('o')
-        for opk in OPK:
-            tt = list(t); tt[j] = str(opk)
-            cases.append({'id': 'e-tmpl%d-op%d' % (i, opk), 'label': 'template %s' % ' '.join(tt), 'cfg': {0: ' '.join(tt)}})
+    for fam, prelude, ident, what in FAMILIES:
+        extra = {} if prelude is None else {1: prelude, 2: ident}
+        # exhaustive length: the default family to 3 (thorough 4); the other families to 2 (thorough 3) plus f ( … ) call shapes
+        n = (3 if tier == 'quick' else 4) if fam == 'x' else (2 if tier == 'quick' else 3)
+        for L in range(1, n + 1):
+            for first in range(K):
+                if L >= 4:
+                    for second in range(K):
+                        cases.append({'id': 'e-%s-len%d-first%d-%d' % (fam, L, first, second), 'label': 'identifier = %s: all accepted expressions of %d tokens starting with kinds %d %d' % (what, L, first, second), 'cfg': {**{0: ' '.join([str(first), str(second)] + ['s'] * (L - 2))}, **extra}})
+                    continue
+                cases.append({'id': 'e-%s-len%d-first%d' % (fam, L, first), 'label': 'identifier = %s: all accepted expressions of %d tokens starting with kind %d' % (what, L, first), 'cfg': {**{0: ' '.join([str(first)] + ['s'] * (L - 1))}, **extra}})
+        TT = list(T)
+        if fam == 'f':
+            TT = [[x, LP, n2, 'o', n2, RP], [x, LP, n2, RP, 'o', n2], [n2, 'o', x, LP, n2, RP], [x, LP, n2, RP, BANG, 'o', n2], [MINUS, x, LP, n2, RP, 'o', n2], [x, LP, x, LP, n2, RP, RP, 'o', n2], [n2, str(c10.PIPE), x, 'o', n2]]
+        if tier == 'quick' and fam not in ('x', 'f'):
+            TT = [TT[0], TT[3], TT[5], TT[8], TT[10], TT[12]]
+        for i, t in enumerate(TT):
+            j = t.index('o')
+            for opk in OPK:
+                tt = list(t); tt[j] = str(opk)
+                cases.append({'id': 'e-%s-tmpl%d-op%d' % (fam, i, opk), 'label': 'identifier = %s: template %s' % (what, ' '.join(tt)), 'cfg': {**{0: ' '.join(tt)}, **extra}})
+    # fixed sequences that exhibit the listed known finding (so that the quick tier reports it too)
+    for i, pat in enumerate(['0 6 1 0', '33 6 1 0']):
+        cases.append({'id': 'e-x-fixed%d' % i, 'label': 'fixed token sequence %s' % pat, 'cfg': {0: pat}})
     return {'entry': 'h_c15_expr', 'cases': cases, 'opts': {'mode': 'replay', 'max_paths': 200000, 'instr_budget': 400_000_000},
             'expect_covers': ['c15-expr-outside-grammar', 'c15-expr-accepted', 'c15-expr-echo-accepted'], 'selftest_inputs': c10._inputs}
 
-def classify(v, case): return None
+def classify(v, case):
+    """known finding (keyed by role): the echo of a right-nested product `n × (id × …)` is printed without
+    parentheses, and its re-read form `(n × id) × …` is printed with the scalar-identifier fusion `n id × …`"""
+    if v.get('tag') != 'echo-of-the-echo-is-the-same-text': return None
+    import re
+    obs = {}
+    for o in (v.get('rec') or {}).get('obs', []):
+        try: obs[o[0]] = bytes.fromhex(o[2]).decode()
+        except Exception: pass
+    a, b = obs.get('c15-echo'), obs.get('c15-echo-of-echo')
+    if not a or not b: return None
+    fuse = lambda t: re.sub(r'(\d|NaN|inf) × ([A-Za-z_])', r'\1 \2', t)
+    if a != b and fuse(a) == fuse(b): return 'echo-refuses-product-after-reassociation'
+    return None
